@@ -20,7 +20,7 @@ from prysm.propagation import Wavefront
 
 ID = 'C01'
 ASSUMPTIONS = [
-    'shift / Q / samples_out are given in the documented forms (scalar or tuple); list-valued shift or samples_out (unhashable cache key) is outside the scope',
+    'shift / Q / samples_out of the ENGINES (dft2, czt2, ...) are given in the documented forms (scalar or tuple); list-valued shift or samples_out (unhashable cache key) is outside the scope there; the public fixed-sampling wrappers are additionally driven with the shift as float64 ndarray, list and tuple of numpy scalars',
     'integer / boolean input arrays are outside the scope (real float and complex inputs, as the property says)',
     'accuracy demanded: 2e3 * eps of the coarser of (configured precision, input dtype)',
 ]
@@ -236,6 +236,12 @@ def run_wrappers(case, seed, R):
     eps = np.finfo(float).eps
     x = dense(n, seed, 9)
     sq = 'square' if n[0] == n[1] else 'nonsquare'
+    # argument forms of the shift: the SAME objects are handed to every call of the case (both methods, both directions), so a routine
+    # that converts the units in place on the caller's object (np.asarray(shift) is the caller's array when it is float64) is seen both
+    # by the hygiene layer and by the later calls that receive the rescaled values
+    shp_units = (sh[0] * dxi, sh[1] * dxi)
+    forms_f = {'ndarray': np.array(shift_units, dtype=float), 'list': [float(v) for v in shift_units], 'npscalars': tuple(np.float64(v) for v in shift_units)} if any(sh) else {}
+    forms_u = {'ndarray': np.array(shp_units, dtype=float), 'list': [float(v) for v in shp_units], 'npscalars': tuple(np.float64(v) for v in shp_units)} if any(sh) else {}
     for method in ('mdft', 'czt'):
         reset_executors(64)
         # focus: pupil n, dx=dxi -> focal N, dx=dxo
@@ -243,6 +249,11 @@ def run_wrappers(case, seed, R):
         ref = ref_dft.dft2(x, Qf, N, sh, True)
         got = R.call(propagation.focus_fixed_sampling, x.copy(), dxi, efl, wvl, dxo, N if N[0] != N[1] else N[0], shift=shift_units, method=method)
         _cmp_phase(R, got, ref, any(sh), K_TOL * eps * 10, sig)
+        for fname, fobj in forms_f.items():
+            g2 = R.call(propagation.focus_fixed_sampling, x.copy(), dxi, efl, wvl, dxo, N, shift=fobj, method=method)
+            if got is not FAILED:
+                R.expect_close(g2, got, K_TOL * eps * 10 * max(1.0, float(np.abs(ref).max())), f'focus_fixed_sampling:{method}:shift-form:{fname}',
+                               f'shift given as {fname} vs the same shift given as a tuple of floats')
         w = snap(Wavefront(x.copy(), wvl, dxi, 'pupil'))
         out = R.call(w.focus_fixed_sampling, efl, dxo, N, shift=shift_units, method=method)
         wf_repeat(R, w, 'focus_fixed_sampling', (efl, dxo, N), {'shift': shift_units, 'method': method}, out, f'Wavefront.focus_fixed_sampling:{method}')
@@ -257,6 +268,11 @@ def run_wrappers(case, seed, R):
         sig = f'unfocus_fixed_sampling:{method}:{shape_class(N, n)}:{shift_class(sh)}'
         got = R.call(propagation.unfocus_fixed_sampling, X.copy(), dxo, efl, wvl, dxi, n if n[0] != n[1] else n[0], shift=shp, method=method)
         _cmp_phase(R, got, ref, any(sh), K_TOL * eps * 10, sig)
+        for fname, fobj in forms_u.items():
+            g2 = R.call(propagation.unfocus_fixed_sampling, X.copy(), dxo, efl, wvl, dxi, n, shift=fobj, method=method)
+            if got is not FAILED:
+                R.expect_close(g2, got, K_TOL * eps * 10 * max(1.0, float(np.abs(ref).max())), f'unfocus_fixed_sampling:{method}:shift-form:{fname}',
+                               f'shift given as {fname} vs the same shift given as a tuple of floats')
         w = snap(Wavefront(X.copy(), wvl, dxo, 'psf'))
         out = R.call(w.unfocus_fixed_sampling, efl, dxi, n, shift=shp, method=method)
         wf_repeat(R, w, 'unfocus_fixed_sampling', (efl, dxi, n), {'shift': shp, 'method': method}, out, f'Wavefront.unfocus_fixed_sampling:{method}')
@@ -505,7 +521,7 @@ def plan(tier, seed):
         ScopeUnit('fft_route', fft_cases, run_fft,
                   f'every input shape in [1..{Bf}]^2 x Q in {{1,1.5,2,2.5,3}}: focus / unfocus operator matrices vs the textbook sum on the padded grid (per-axis Q = padded/unpadded), vs mdft and czt on that grid, Wavefront.focus/unfocus, both precisions'),
         ScopeUnit('wrappers', wr_cases, run_wrappers,
-                  f'pupils (n0,n1) in [1..{Bw}]^2 (square and non-square) -> focal (N0,N1) in [1..{Bw + 1}]^2, 3 sampling ratios, 3 shifts, 2 (wavelength, efl, dx) unit sets' + (' (quick: every third cell of the product by index arithmetic, all cells with axes <= 2)' if tier == 'quick' else '') + ': focus_fixed_sampling / unfocus_fixed_sampling and the Wavefront methods vs the textbook sum whose per-axis Q = wvl*efl/(n_axis*dx_in*dx_out) and shift/dx_out are computed by hand (one physical dx per plane)'),
+                  f'pupils (n0,n1) in [1..{Bw}]^2 (square and non-square) -> focal (N0,N1) in [1..{Bw + 1}]^2, 3 sampling ratios, 3 shifts, 2 (wavelength, efl, dx) unit sets, non-zero shifts additionally as float64 ndarray / list / tuple of numpy scalars with the same objects reused by every call of the case' + (' (quick: every third cell of the product by index arithmetic, all cells with axes <= 2)' if tier == 'quick' else '') + ': focus_fixed_sampling / unfocus_fixed_sampling and the Wavefront methods vs the textbook sum whose per-axis Q = wvl*efl/(n_axis*dx_in*dx_out) and shift/dx_out are computed by hand (one physical dx per plane)'),
         ScopeUnit('large', large_cases, run_large,
                   f'size-threshold alphabet: long axes n in {LN} (1-D-like shapes (3,n),(n,1),(4,n)->(n,3),(n,3)->(5,n)) x 3 (Q, shift) forms, and 2-D shapes at / above 64^2..128^2 incl. odd, non-square and sides = 2 mod 4; '
                   'every engine and direction (and focus / unfocus on their own grid) on three inputs (delta at the origin, delta at the last sample, seeded dense) against the separable textbook sum; not closed over the data dimension (stated)',
